@@ -101,6 +101,62 @@ def tbytes(t):
 	return repr(t)
 
 
+LAYOUTS = ("plain", "strided", "offset", "step")
+
+
+def layout_of(params, *extra):
+	"""The memory layout in which a case hands its tensors to the package:
+	params['layout'] when given, else a choice derived from the case's own
+	parameters (so that replays reproduce it and it is not correlated with
+	any rotating parameter)."""
+	if isinstance(params, dict) and params.get("layout") and not extra:
+		return params["layout"]
+	key = repr(sorted((k, repr(v)) for k, v in params.items()
+		if k != "layout")) if isinstance(params, dict) else repr(params)
+	return LAYOUTS[pyrng("layout", key, *extra).randrange(len(LAYOUTS))]
+
+
+def relayout(t, mode):
+	"""-> (view, base): a tensor with the same values, dtype and shape as t
+	but another memory layout, and the storage it lives in (None for plain):
+	  strided  last two dims stored transposed (non-contiguous)
+	  offset   interior of a larger tensor whose margin holds the sentinel 7
+	           (storage offset, non-contiguous; the margin must stay intact)
+	  step     every second element of the last dim of a tensor twice as long
+	           (stride 2; the skipped cells hold the sentinel 7)."""
+	if mode == "plain" or t is None or t.ndim == 0:
+		return t, None
+	if mode == "strided":
+		if t.ndim < 2:
+			return t, None
+		base = t.transpose(-1, -2).contiguous()
+		return base.transpose(-1, -2), base
+	if mode == "offset":
+		base = torch.full([n + 2 for n in t.shape], 7).type(t.dtype)
+		idx = tuple(slice(1, -1) for _ in t.shape)
+		base[idx] = t
+		return base[idx], base
+	if mode == "step":
+		base = torch.full(list(t.shape[:-1]) + [2 * t.shape[-1]], 7).type(
+			t.dtype)
+		base[..., ::2] = t
+		return base[..., ::2], base
+	raise ValueError(mode)
+
+
+def apply_layout(params, rec, t, *extra):
+	"""-> (params with the layout recorded, view of t in that layout, base).
+	Counts what the monitor saw."""
+	lay = layout_of(params, *extra)
+	if not extra:
+		params = dict(params, layout=lay)
+	v, base = relayout(t, lay)
+	rec.setadd("layouts", lay)
+	if base is not None:
+		rec.count("nonplain_layout_cases")
+	return params, v, base
+
+
 class Immutable:
 	"""Immutability monitor: byte snapshots of caller-owned tensors before a
 	call, compared after return *or* raise."""
